@@ -41,7 +41,9 @@ ImplValue(env, s, v, D) ==
                              ImplValue(env, IF Has(s, "items") THEN s.items ELSE [type |-> <<>>], v.a[i], D)
       [] T = "integer" -> v.t \in {"num", "big"} /\ IsIntegral(v)
       [] T = "number"  -> v.t \in {"num", "big"}
-      [] T = "string"  -> v.t = "str"
+      [] T = "string"  -> IF Has(s, "format") /\ s.format \in Formats
+                          THEN v.t = "fmt" /\ v.f = s.format      \* time.Time / netip.Addr / Serializable*: parse
+                          ELSE v.t \in {"str", "fmt"}
       [] T = "boolean" -> v.t = "bool"
       [] OTHER -> TRUE
 
